@@ -99,6 +99,13 @@ def gen_case(rng):
                     cap = rng.choice([(tm, nb, True, False), (tm, nb, False, True)])    # comes back listing fewer families
                 add(("up", cap))
                 if ref.restarting and rng.random() < 0.6:
+                    if rng.random() < 0.6:
+                        # the restarted peer sends some of its routes again, unchanged, before its End-of-RIB markers
+                        for _ in range(rng.choice([1, 2, 3])):
+                            f = rng.choice([4, 4, 6])
+                            add(("ann", f, rng.randrange(3 if f == 4 else 2)))
+                        if rng.random() < 0.3:
+                            add(("obs",))
                     for f in rng.sample([4, 6], 2):
                         if rng.random() < 0.8:
                             add(("eor", f))
